@@ -10,7 +10,10 @@ Require Import Verif.Lib.Wire Verif.Gen.Facts_C03 Verif.Model.C03 Verif.Proofs.C
    the with-block, request_iface.combined, the classes caught by the tween / _error_handler /
    invoke_exception_view, the contexts of the default exception-response view, the contexts and exception_only
    flags of add_notfound_view / add_forbidden_view / add_exception_view) are the ones the property speaks about *)
-Theorem C14_facts_ok : code_params = spec_params.
+(* ... up to one flag: whether _call_view(secure=False) checks the predicates of a single secured view.  The
+   property's value is true; the code's value is regenerated (false in the text with finding
+   C14-permissive-skips-predicates, true after its repair), and the theorems below are stated for both. *)
+Theorem C14_facts_ok : code_params = spec_params_b permissive_checks_predicates.
 Proof. exact facts_ok. Qed.
 Print Assumptions C14_facts_ok.
 
@@ -63,10 +66,10 @@ Print Assumptions C14_no_view_propagates_same_object.
 
 (* the same for a direct request.invoke_exception_view(reraise=rr): attributes restored, no body ran, and
    what is raised is the original (reraise) or the framework's HTTPNotFound / PredicateMismatch *)
-Theorem C14_invoke_exception_view_no_view : forall P W ri site rr e st,
+Theorem C14_invoke_exception_view_no_view : forall P W ri site rr sec e st,
   NoDup (p_hidden P) ->
-  not_found (call_view (w_reg W) exc_classifier_id (exc_request P W ri e)) ->
-  let r := iev P W ri site rr e st in
+  not_found (call_view_sec P (w_reg W) sec exc_classifier_id (exc_request P W ri e)) ->
+  let r := iev P W ri site rr sec e st in
   st_log (snd r) = st_log st
   /\ (forall k, In k (p_hidden P) -> aget k (st_attrs (snd r)) = aget k (st_attrs st))
   /\ (fst r = Raise (if rr then e else fresh_of_class (p_none_raises P) site)
@@ -79,11 +82,11 @@ Print Assumptions C14_invoke_exception_view_no_view.
    the exception itself through the default view) leaves exception / exc_info set to the raised object and
    request.response as before; a view that fails leaves all three as before and its own exception propagates
    (except an HTTPNotFound, which _error_handler takes for "no view") *)
-Theorem C14_excview_sees_exception : forall W ri e st t,
+Theorem C14_excview_sees_exception : forall b W ri e st t,
   isa W cn_Exception e = true ->
-  call_view (w_reg W) exc_classifier_id (exc_request spec_params W ri e) = Ran t ->
+  call_view (w_reg W) exc_classifier_id (exc_request (spec_params_b b) W ri e) = Ran t ->
   b_perm (body_of (w_bodies W) t) && ri_deny ri = false ->
-  let r := excview_tween spec_params W ri (Raise e) st in
+  let r := excview_tween (spec_params_b b) W ri (Raise e) st in
   st_log (snd r) = st_log st ++ [EBody t e (seen_snapshot e)]
   /\ rendered W None t e (snap (st_attrs st)) (fst r) (snap (st_attrs (snd r))).
 Proof. exact excview_view_runs. Qed.
@@ -100,17 +103,36 @@ Theorem C14_excview_nearest_class_partial : forall ao regs P W ri e,
 Proof. exact excview_nearest_class. Qed.
 Print Assumptions C14_excview_nearest_class_partial.
 
+(* a secured exception view that the policy refuses: its body does not run, the attributes are as before, and
+   the refusal (the framework's HTTPForbidden) propagates -- it does not enter 403 handling *)
+Theorem C14_excview_refused : forall b W ri e st t,
+  isa W cn_Exception e = true ->
+  isa W cn_HTTPNotFound (fresh_forb site_tween) = false ->
+  call_view (w_reg W) exc_classifier_id (exc_request (spec_params_b b) W ri e) = Ran t ->
+  b_perm (body_of (w_bodies W) t) && ri_deny ri = true ->
+  let r := excview_tween (spec_params_b b) W ri (Raise e) st in
+  fst r = Raise (fresh_forb site_tween) /\ st_log (snd r) = st_log st
+  /\ snap (st_attrs (snd r)) = snap (st_attrs st).
+Proof. exact excview_refused. Qed.
+Print Assumptions C14_excview_refused.
+
+(* a permissive call (secure=False) is the ordinary lookup when it checks predicates *)
+Theorem C14_permissive_lookup : forall P R sec cls rq,
+  sec = true \/ p_perm_checks P = true -> call_view_sec P R sec cls rq = call_view R cls rq.
+Proof. exact call_view_sec_eq. Qed.
+Print Assumptions C14_permissive_lookup.
+
 (* http_exception_is_response: an HTTP exception for which the declarative order allows only default
    exception-response views is itself the response and stays request.exception *)
-Theorem C14_http_exception_is_response : forall ao regs W ri e st,
+Theorem C14_http_exception_is_response : forall b ao regs W ri e st,
   w_reg W = register_all ao regs ->
-  Forall reg_wf regs -> NoDup (map key regs) -> no_accept regs -> order_respects regs ->
-  NoDup (q_req_sro (exc_request spec_params W ri e)) -> NoDup (x_sro (find_exc (w_excs W) e)) ->
+  spec_ok exc_classifier_id regs (exc_request (spec_params_b b) W ri e)
+          (call_view (register_all ao regs) exc_classifier_id (exc_request (spec_params_b b) W ri e)) = true ->
   isa W cn_Exception e = true -> status_of W e <> 0%N ->
-  spec_winners exc_classifier_id regs (exc_request spec_params W ri e) <> [] ->
-  (forall w, In w (spec_winners exc_classifier_id regs (exc_request spec_params W ri e)) ->
+  spec_winners exc_classifier_id regs (exc_request (spec_params_b b) W ri e) <> [] ->
+  (forall w, In w (spec_winners exc_classifier_id regs (exc_request (spec_params_b b) W ri e)) ->
              body_of (w_bodies W) (r_tag w) = mkBody false ARetCtx false) ->
-  let r := excview_tween spec_params W ri (Raise e) st in
+  let r := excview_tween (spec_params_b b) W ri (Raise e) st in
   fst r = Resp (RExc e)
   /\ aget hn_exception (st_attrs (snd r)) = Some e /\ aget hn_exc_info (st_attrs (snd r)) = Some e
   /\ aget hn_response (st_attrs (snd r)) = aget hn_response (st_attrs st).
@@ -144,22 +166,60 @@ Print Assumptions C14_response_passes.
 
 (* The executable judge of the property (Model/C14.v [judge]: the function the check applies to the
    IMPLEMENTATION's event trace) accepts the trace of the model for every request: whatever reaches the excview
-   tween -- and whatever a tween below hands to request.invoke_exception_view() -- is rendered by a view the
-   declarative order [spec_winners] allows (resolution order of the raised object, combined request interface,
-   predicates), that view saw the object as context / request.exception / exc_info and no request.response,
-   the attributes afterwards are as the property says; with no winner the same object propagates and the
-   attributes are restored.  Hypotheses: C03's (partial as C03_lookup_winner_partial: no accept=), duplicate-free
-   oracle resolution orders, and the isinstance table says of the framework-made objects what they are.
-   Non-vacuity: Proofs/C14_c.v [judge_accepts_model_nonvacuous]. *)
-Theorem C14_judge_accepts_model_partial : forall ao regs W ri,
-  w_reg W = register_all ao regs ->
-  Forall reg_wf regs -> NoDup (map key regs) -> no_accept regs -> order_respects regs ->
-  (forall e, NoDup (q_req_sro (exc_request spec_params W ri e))) ->
-  (forall e, NoDup (x_sro (find_exc (w_excs W) e))) ->
+   tween -- and whatever a tween below hands to request.invoke_exception_view(reraise=, secure=) -- is rendered by
+   a view the declarative order [spec_winners] allows (resolution order of the raised object, combined request
+   interface, predicates); that view saw the object as context / request.exception / exc_info and no
+   request.response; the attributes afterwards are as the property says; a secured view that the policy refuses
+   does not run and its HTTPForbidden propagates; with no winner the same object propagates and the attributes
+   are restored.
+   Full-strength statement: for every request.  It holds when permissive calls check predicates (b = true, the
+   repaired text); of the code as it is (b = false) it is false -- C14_judge_accepts_model_refuted -- and holds
+   for the requests whose tween does not call invoke_exception_view(secure=False).
+   Other hypotheses: [spec_ok] of the exception-view lookups (C14_lookup_ok_partial + C14_regs_upto_hyps discharge
+   it for registries built from the directives, except overriding declarations); the isinstance table says of the
+   framework-made objects what they are.  Non-vacuity: Proofs/C14_c.v
+   [judge_accepts_model_nonvacuous]. *)
+Theorem C14_judge_accepts_model_partial : forall b regs W ri,
+  b = true \/ sec_of (ri_under ri) = true ->
+  (forall e, spec_ok exc_classifier_id regs (exc_request (spec_params_b b) W ri e)
+               (call_view (w_reg W) exc_classifier_id (exc_request (spec_params_b b) W ri e)) = true) ->
   isa W cn_Exception ctx_resource = false ->
   (forall site, In site [site_under; site_tween] ->
      isa W cn_HTTPNotFound (fresh_nf site) = true /\ isa W cn_HTTPNotFound (fresh_pme site) = true
-     /\ isa W cn_Exception (fresh_pme site) = true) ->
-  judge regs W ri (run_request spec_params W ri) = true.
+     /\ isa W cn_Exception (fresh_pme site) = true
+     /\ isa W cn_HTTPForbidden (fresh_forb site) = true /\ isa W cn_Exception (fresh_forb site) = true
+     /\ isa W cn_HTTPNotFound (fresh_forb site) = false) ->
+  judge regs W ri (run_request (spec_params_b b) W ri) = true.
 Proof. exact judge_accepts_model. Qed.
 Print Assumptions C14_judge_accepts_model_partial.
+
+(* the lookup premise, for a registry built by register_all from registrations satisfying C03's hypotheses
+   (partial as C03_lookup_winner_partial: no accept=, no two registrations with equal slot and phash) ... *)
+Theorem C14_lookup_ok_partial : forall b ao regs W ri,
+  w_reg W = register_all ao regs ->
+  Forall reg_wf regs -> NoDup (map key regs) -> no_accept regs -> order_respects regs ->
+  (forall e, NoDup (q_req_sro (exc_request (spec_params_b b) W ri e))) ->
+  (forall e, NoDup (x_sro (find_exc (w_excs W) e))) ->
+  forall e, spec_ok exc_classifier_id regs (exc_request (spec_params_b b) W ri e)
+              (call_view (w_reg W) exc_classifier_id (exc_request (spec_params_b b) W ri e)) = true.
+Proof. exact lookup_ok_register_all. Qed.
+Print Assumptions C14_lookup_ok_partial.
+
+(* ... and those hypotheses (other than distinct keys) for the registrations the directives produce *)
+Theorem C14_regs_upto_hyps : forall P names nm user ph,
+  (length names <= 20)%nat ->
+  Forall (fun d => a_accept (d_args d) = None) user ->
+  Forall (fun v => (n_preds v <= 400)%nat) (regs_upto P names nm user ph) ->
+  Forall reg_wf (regs_upto P names nm user ph)
+  /\ no_accept (regs_upto P names nm user ph)
+  /\ order_respects (regs_upto P names nm user ph).
+Proof. exact regs_upto_hyps. Qed.
+Print Assumptions C14_regs_upto_hyps.
+
+Theorem C14_judge_accepts_model_refuted :
+  sec_of (ri_under rf_ri) = false
+  /\ judge rf_regs rf_W rf_ri (run_request (spec_params_b false) rf_W rf_ri) = false
+  /\ judge rf_regs rf_W rf_ri (run_request (spec_params_b true) rf_W rf_ri) = true
+  /\ spec_winners exc_classifier_id rf_regs (exc_request spec_params rf_W rf_ri 0%N) = [].
+Proof. exact judge_accepts_model_refuted. Qed.
+Print Assumptions C14_judge_accepts_model_refuted.
